@@ -10,7 +10,7 @@ RULE = ("Alignments as in C06 (kalign results on generated protein/nucleotide se
         "columns; Clustal: header line, every block lists every sequence once in order, full blocks of 60, equal widths; MSF: "
         "!!AA/!!NA line and Type: P/N agree with the kind, 'MSF: <len>' and every 'Len:' equal the true length, every per-row "
         "'Check:' equals my GCG checksum of the row as written, '//' present, blocks as for Clustal; parsed rows equal "
-        "kalign's own rows. extra(): enumerated sweeps (row counts, widths, name lengths, output file name lengths) and alignments of 2.3 million columns (thorough: 0.9..5 million, both kinds) read, finalised and written on the un-sanitised build (arithmetic that is only wrong at extreme but legal sizes). Non-trivial = width > 60 and >= 1 gap in row 0; distinct by hash of the case.")
+        "kalign's own rows. extra(): two threads writing two objects to two files at the same time (3 x 4 format pairs x 12 rounds, every file judged); enumerated sweeps (row counts, widths, name lengths, output file name lengths) and alignments of 2.3 million columns (thorough: 0.9..5 million, both kinds) read, finalised and written on the un-sanitised build (arithmetic that is only wrong at extreme but legal sizes). Non-trivial = width > 60 and >= 1 gap in row 0; distinct by hash of the case.")
 ASSUMPTIONS = ["the MSF header's total Check is recorded but not judged (the property names the per-row values)",
                "molecule type is judged only when a C13 premise determines the kind of the residues"]
 BUDGET = {"quick": dict(examples=170, workers=12, seconds=60), "thorough": dict(examples=1300, workers=16, seconds=600)}
@@ -169,9 +169,48 @@ def check_history(case):
     return engine.ok(True, cl, {"kind": kind, "rows": len(tr), "width": len(tr[0])}, key="hist:%s:%d" % (kind, rnd_seed))
 
 
+def check_concurrent(case):
+    """two application threads, each writing its own aligned object to its own file, at the same time (30 rounds per format
+    pair): both files must be what a lone writer produces"""
+    h = case["conc"]
+    fams = [(gen.expand_family(h["seed"], gen.NUC, 6, 130, 0.1, 0.03, 0.0), "dna"), (gen.expand_family(h["seed"] + 1, gen.AA, 5, 140, 0.15, 0.03, 0.0), "protein")]
+    wd = runner.workdir()
+    lines, outs = [], []
+    for k, (fam, kind) in enumerate(fams):
+        fp = wd.write(kal.fasta_bytes(["%s%d" % (kind[0], i) for i in range(len(fam))], fam), ".fa")
+        lines += ["read %d 1 %s" % (k, fp), "run %d 1 5 -1 -1 -1" % k, "dump %d" % k]
+    pairs = [("fasta", "msf"), ("msf", "clu"), ("clu", "fasta"), ("msf", "msf")]
+    for i, (fa, fb) in enumerate(pairs):
+        oa, ob = wd.path(".a%d.%s" % (i, fa)), wd.path(".b%d.%s" % (i, fb))
+        outs.append((fa, oa, fb, ob))
+        lines.append("pwrite %d 0 %s %s 1 %s %s" % (h.get("rounds", 30), fa, oa, fb, ob))
+    lines += ["free 0", "free 1"]
+    pr = runner.run_probe(lines, variant=h.get("variant", "plain"))
+    cl = ["source=kalign", "concurrent_writers"]
+    if pr.ended.bad or pr.ended.rc != 0 or pr.steps is None or len(pr.steps) != len(lines):
+        return engine.violation({"what": "process failure", **pr.ended.brief()}, classes=cl, kind="crash")
+    st_ = pr.steps
+    if any(st_[i]["rc"] != 0 for i in (0, 1, 3, 4)) or st_[2].get("msa") is None or st_[5].get("msa") is None:
+        return engine.discard("source alignment could not be produced (C01/C06 territory)", classes=cl)
+    rows = [kal.msa_rows(st_[2]["msa"]), kal.msa_rows(st_[5]["msa"])]
+    for i, (fa, oa, fb, ob) in enumerate(outs):
+        if st_[6 + i]["rc"] != 0:
+            return engine.violation({"what": "a concurrent write failed"}, classes=cl, kind="status")
+        for who, (fmt, path) in enumerate(((fa, oa), (fb, ob))):
+            for rd in range(h.get("rounds", 30)):
+                with open("%s.%d" % (path, rd), "rb") as fh:
+                    text = fh.read().decode("latin-1")
+                bad = judge_file(fmt, text, rows[who][0], rows[who][1], fams[who][1])
+                if bad:
+                    return engine.violation({"what": "written while another thread was writing another object (round %d): %s" % (rd, bad), "head": text[:200]}, classes=cl)
+    return engine.ok(True, cl, {"pairs": len(pairs)}, key="conc:%d" % h["seed"])
+
+
 def check(case):
     if case.get("giant"):
         return check_giant(case)
+    if case.get("conc"):
+        return check_concurrent(case)
     if case.get("hist"):
         return check_history(case)
     src = case["src"]
@@ -323,6 +362,12 @@ def extra(tier, seed, stats):
         r = check(c)
         stats.record(c, r)
         stats.classes["checksum_edge_rows"] += 1
+        if r["status"] == "violation":
+            out.append({"case": c, "detail": r["detail"], "kind": r.get("kind")})
+    for i in range(3 if tier == "quick" else 12):
+        c = {"conc": {"seed": seed * 19 + i, "rounds": 12}}
+        r = check_concurrent(c)
+        stats.record(c, r)
         if r["status"] == "violation":
             out.append({"case": c, "detail": r["detail"], "kind": r.get("kind")})
     for i, kind in enumerate(("dna", "protein", "dna", "protein")):
